@@ -2,6 +2,8 @@
   C07 — FindSequenceOnDisk returns exactly the pattern's on-disk frames, never panics.
   (OS side is a parameter of the model: partial, see C06.)
 -/
+import GfsProofs.FindComplete
+import GfsProofs.CompressLemmas
 import GfsModel.Disk
 import GfsProofs.DiskLemmas
 import GfsGen.Facts
@@ -44,6 +46,51 @@ theorem C07_glob_only_frames (o : ListOpts) (t : Seq) (items : List FileItem)
   rcases hb b hbm with h0 | h1
   · simp at h0
   · exact h1
+
+/-- Completeness: when the visible names `basename + frame number + extension` of the pattern's
+    directory (`candToks`: the glob and the frame-number test, hidden names only on request) are
+    two or more and share one digit width, the non-strict lookup returns ONE sequence with the
+    pattern's directory, basename and extension, in the requested style, of that width, whose
+    range text is the compressed list of ALL their numbers — no candidate is dropped, whatever
+    else the directory holds and in whatever order it is read. -/
+theorem C07_complete (lookup : Bytes → DirSpec) (pat : Bytes) (st : PadStyle) (hidden : Bool)
+    (fs : Seq) (entries : List Entry) (w : Nat)
+    (hp : Seq.parse st pat = .ok fs) (hl : lookup fs.dir = some entries)
+    (hnd : ∀ e ∈ entries, e.kind ≠ .dangling)
+    (toks : List Bytes)
+    (htoks : toks = FindComplete.candToks ⟨false, hidden, st⟩ fs
+        ((entries.filter fun e => e.kind = .file ∨ e.kind = .linkFile).map fun e => ⟨dirPrefix fs.dir, e.name⟩))
+    (h2 : 2 ≤ toks.length) (hw : ∀ tk ∈ toks, tk.length = w) :
+    ∃ s, findSequenceOnDisk lookup pat st false hidden = .ok (some s) ∧
+      s.dir = fs.dir ∧ s.base = fs.base ∧ s.ext = fs.ext ∧ s.style = st ∧
+      s = (rebuild st fs.dir fs.base (framesToFrameRange (toks.map atoiOr0) true 0)
+            (padChars st w) fs.ext).setPaddingStyle st :=
+  FindComplete.find_complete lookup pat st hidden fs entries w hp hl hnd toks htoks h2 hw
+
+/-- … and that range text denotes exactly their numbers, ascending (C09), when the numbers are
+    distinct and fit an int -/
+theorem C07_complete_frames (toks : List Bytes) (hne : toks ≠ [])
+    (hnd : (toks.map atoiOr0).Nodup)
+    (hfit : ∀ a ∈ toks.map atoiOr0, ∀ b ∈ toks.map atoiOr0, Fits a ∧ Fits (a - b)) :
+    ∃ fset, FrameSet.parse (framesToFrameRange (toks.map atoiOr0) true 0) = .ok fset ∧
+      fset.frames = sortedSet (toks.map atoiOr0) :=
+  f2r_sorted (toks.map atoiOr0) 0 (by simpa using hne) hnd hfit
+
+/-- non-vacuity: a directory with three frames of one width among siblings that are no frames
+    (nothing between basename and extension, a non-numeric middle, a range-like middle, a hidden
+    frame, a sub-directory of a matching name) -/
+def exEntries : List Entry :=
+  [⟨"a.0001.exr".toList, .file⟩, ⟨"a..exr".toList, .file⟩, ⟨"a.x.exr".toList, .file⟩,
+   ⟨"a.0003.exr".toList, .linkFile⟩, ⟨"a.1-5.exr".toList, .file⟩, ⟨".a.0007.exr".toList, .file⟩,
+   ⟨"a.0009.exr".toList, .dir⟩, ⟨"a.0002.exr".toList, .file⟩]
+
+example :
+    FindComplete.candToks ⟨false, false, .hash4⟩
+      ⟨"a.".toList, "/T/d/".toList, ".exr".toList, "#".toList, 4, none, .hash4⟩
+      ((exEntries.filter fun e => e.kind = .file ∨ e.kind = .linkFile).map
+        fun e => (⟨"/T/d/".toList, e.name⟩ : FileItem)) =
+      ["0001".toList, "0003".toList, "0002".toList] := by
+  decide +kernel
 
 /-- the glob's slice expression is within bounds under the guard the code tests -/
 theorem C07_slice_in_bounds (base ext name : Bytes) (h : base.length + ext.length ≤ name.length) :
